@@ -34,10 +34,9 @@ def register(reg):
         # bracketing fixes and interpolated position, for an ARBITRARY produced observation J0 (ghost input)
         "implies(0 <= J0 and J0 < len(OK_), 1 <= RID_[J0] and RID_[J0] < %s and T[RID_[J0] - 1] < REF[OK_[J0]] and REF[OK_[J0]] <= T[RID_[J0]])" % n,
         "all(isnew(interp_points[j]) and isnew(interp_points[j].position) and isnew(interp_points[j].timestamp) for j in range(0, len(OK_)))",
-        "implies(0 <= J0 and J0 < len(OK_), not isnan(interp_points[J0].position.E))",
-        "implies(0 <= J0 and J0 < len(OK_), %s)" % lerp("J0", "E", "X"),
         "implies(0 <= J0 and J0 < len(OK_), not isnan(interp_points[J0].position.N) and %s)" % lerp("J0", "N", "Y"),
         "implies(0 <= J0 and J0 < len(OK_), not isnan(interp_points[J0].position.U) and %s)" % lerp("J0", "U", "Z"),
+        "implies(0 <= J0 and J0 < len(OK_), not isnan(interp_points[J0].position.E) and %s)" % lerp("J0", "E", "X"),
         "implies(0 <= J0 and J0 < len(OK_), wf(interp_points[J0].timestamp) and abstime(interp_points[J0].timestamp) <= REF[OK_[J0]] and "
         "REF[OK_[J0]] < abstime(interp_points[J0].timestamp) + 0.001)"]
     LERPS = [lerp("len(OK_) - 1", f, F) for f, F in (("E", "X"), ("N", "Y"), ("U", "Z"))]
@@ -66,8 +65,8 @@ def register(reg):
                           ("no-requested-instant-in-range-is-dropped",
                            "all(implies(%s, any(OK_[j] == q for j in range(0, len(OK_)))) for q in range(0, len(REF)))" % (INRANGE % ("q", "q"))),
                           ("bracketing-fixes", PRODUCED[4]),
-                          ("linear-interpolation-x", PRODUCED[7]), ("linear-interpolation-y", PRODUCED[8]), ("linear-interpolation-z", PRODUCED[9]),
-                          ("stamped-with-the-instant-to-the-millisecond", PRODUCED[10])]))
+                          ("linear-interpolation-y", PRODUCED[6]), ("linear-interpolation-z", PRODUCED[7]), ("linear-interpolation-x", PRODUCED[8]),
+                          ("stamped-with-the-instant-to-the-millisecond", PRODUCED[9])]))
 
 
 FUNCTIONS = [Q + "__resampleTemporal"]
